@@ -101,8 +101,8 @@ class World:
 
     def _init_static(self, case, mm, observers, E, ResourceSet, URI, EObserver):
         from harness import kstatic
-        style = 'meta' if self.render == 'static-meta' else 'decorator'
-        self.module, pyclasses, nsuri = kstatic.render(mm, style)
+        style = 'meta' if self.render in ('static-meta', 'static-falsy') else 'decorator'
+        self.module, pyclasses, nsuri = kstatic.render(mm, style, falsy=(self.render == 'static-falsy'))
         self.enums = [self.module.__dict__[en['name']] for en in mm.get('enums', [])]
         self.classes = pyclasses
         self.feats = []
